@@ -193,7 +193,9 @@ def tie_free(case, obs):
             k += 1
             if not math.isfinite(v):
                 return False
-            if abs(v - cur_e) <= 1e-9 * max(1.0, abs(cur_e), abs(v)):
+            if x == cur_x and v == cur_e:
+                pass        # zero step (CG returned 0, e.g. exactly zero curvature): the same point, `<=` holds exactly
+            elif abs(v - cur_e) <= 1e-9 * max(1.0, abs(cur_e), abs(v)):
                 return False
             if v <= cur_e:
                 accepted = (x, v)
@@ -225,8 +227,11 @@ def tie_free(case, obs):
         gn = float(sum(v * v for v in g))
         hs = max(1e-300, float(np.abs(Hn).max()))
         d2 = gn
+        small = all(_short_dyadic(v) for row in H for v in row) and all(_short_dyadic(v) for v in g)
         for m, row in enumerate(rows, 1):
             cv = float(row["curv"])
+            if row["curv"] == 0 and m == 1 and small:
+                break       # exactly zero curvature along the gradient on exactly representable data: float64 sees 0.0 too
             if abs(cv) < 1e-7 * hs * max(d2, 1e-300):
                 return False
             if cv <= 0:
@@ -237,6 +242,11 @@ def tie_free(case, obs):
                 break       # converged to rounding level; later float iterations do not move the point
             d2 = float(row["gamma"])
     return True
+
+
+def _short_dyadic(fr):
+    d = fr.denominator
+    return d & (d - 1) == 0 and abs(fr.numerator).bit_length() <= 20 and d.bit_length() <= 20
 
 
 def cg_margin(c):
@@ -500,6 +510,21 @@ def gen_cases(ctx, salt=17, ncase=None):
             got[k] = got.get(k, 0) + 1
             kw = {"maxiter": 1, "miniter": 0, "absdelta": None, "xtol": 1e-5, "erf": 0.1}
             cases.append({"obj": {"type": "poly", "a": a, "b": b, "c": c, "k": 0}, "x0": x0, "kw": kw, "trust": False})
+    # starts with a non-zero gradient and EXACTLY zero curvature along it (exactly representable): at the origin with
+    # b_i = 0 where c_i != 0, or b.c^2 cancelling, or 12 x^2 - 3 = 0 at x = 1/2
+    zc = [({"a": [1, 1], "b": [0, 0], "c": [1, 0], "k": 0}, [0.0, 0.0]),
+          ({"a": [2, 1, 3], "b": [0, 2, 0], "c": [-1, 0, 2], "k": 0}, [0.0, 0.0, 0.0]),
+          ({"a": [1, 2], "b": [1, -1], "c": [2, 2], "k": 0}, [0.0, 0.0]),
+          ({"a": [4], "b": [-3], "c": [0], "k": 0}, [0.5]),
+          ({"a": [4, 1], "b": [-3, 2], "c": [-1, 0], "k": 0}, [0.5, 0.0]),
+          ({"a": [1, 1, 1], "b": [4, -1, 0], "c": [1, 2, 0], "k": 0}, [0.0, 0.0, 0.0]),
+          ({"a": [4], "b": [-3], "c": [2], "k": 0}, [-0.5]),
+          ({"a": [3, 3], "b": [-2, 2], "c": [1, -1], "k": 0}, [0.0, 0.0])]
+    pick = rng.permutation(len(zc))[: (4 if ctx.quick else len(zc))]
+    for q, i in enumerate(sorted(int(v) for v in pick)):
+        ob, x0 = zc[i]
+        kw = {"maxiter": 1 + (q % 2), "miniter": 0, "absdelta": None, "xtol": 1e-5, "erf": 0.1}
+        cases.append({"obj": dict(ob, type="poly"), "x0": x0, "kw": kw, "trust": (q == 0)})
     # ill-conditioned objectives in more than 6 dimensions, default options, >= 2 Newton iterations: the inner CG is
     # stopped by its thresholds (energy criterion derived from the previous Newton step / residual norm); eager and
     # compiled minimiser are compared on result, status, nit, nhev, nfev (no model run: too large for exact rationals)
@@ -550,7 +575,9 @@ def trials_term(case, obs):
     cf = "(mkncfg %s %s %s %s %s None)" % (C.cnat(kw["miniter"]), C.cnat(kw["maxiter"]), C.copt(kw["erf"], C.cq),
                                            C.copt(kw["absdelta"], C.cq), C.cq(Fr(kw["xtol"]) * n))
     te, ts = first_sequence(obs["log"]["trials"]), first_sequence(obs["log"].get("strials", []))
-    xs = [abs(v) for t in te + ts for v in t if math.isfinite(v)]
+    if not all(math.isfinite(v) for t in te + ts for v in t):
+        return "false"      # the model's trial points are always finite: a non-finite logged point is a disagreement
+    xs = [abs(v) for t in te + ts for v in t]
     tolx = 1e-8 * max([1.0] + xs)
     ql = lambda seq: C.clist([qlist(p) for p in seq])
     return "chk_trials %s %s %s %s %s %s %s %s %s %s %s %s" % (
